@@ -100,8 +100,13 @@ Definition m_jwe (t : tblsel) (ur : bool) (m : kfmode) (src : ksrc) (sk : option
                           jwe_select (tbl_of t) (ch_idx idx) (ch_idx sidx) ur (mk_kf m src) sk g) rs
              else jwe_attach (tbl_of t) (ch_idx 0) (ch_idx 0) (mk_kf m src) sk
                              (map (fun x : guest * nat * nat * N => fst (fst (fst x))) rs));
-  do _ <- map_res (fun r : key * option key * guest => jwe_postcheck (headers (snd r))) sel;
   Ok sel.
+
+(* JWERegistry.check_header on every recipient: runs inside perform_encrypt /
+   perform_decrypt, interleaved with the per-recipient key wrapping, so an
+   earlier recipient's post-selection error may come first *)
+Definition m_jwe_post (sel : list (key * option key * guest)) : res (list unit) :=
+  map_res (fun r : key * option key * guest => jwe_postcheck (headers (snd r))) sel.
 
 (* after the lookups: does decryption succeed?  every recipient whose looked-up
    key is the key the token was made with yields the CEK; with
@@ -118,9 +123,10 @@ Fixpoint match_flags (ids pids : list N) : list bool :=
 Definition post_allowed (jwe nokc : bool) (e : exn) : bool :=
   match e with
   | EValue | EAssert => true
+  | EJose UnsupportedKeyOperationError => true   (* signing with a public-only key of the set *)
   | EType | EAttr => nokc       (* rfc7797.serialize_json b64=false signs with a key of the wrong type *)
   | EJose InvalidKeyLengthError | EJose InvalidKeyTypeError | EJose InvalidExchangeKeyError
-  | EJose UnsupportedKeyOperationError | EKey | EJose DecodeError | EJose ConflictAlgorithmError => jwe
+  | EKey | EJose DecodeError | EJose ConflictAlgorithmError => jwe
   | _ => false
   end.
 
@@ -175,9 +181,17 @@ Definition c14_check (c : c14case) : bool :=
       | Ok sel =>
           let fl := match_flags (map (fun r : key * option key * guest => k_id (fst (fst r))) sel)
                                 (map (fun x : guest * nat * nat * N => snd x) rs) in
-          if ur || forallb (fun b => b) fl then fin_check same ur true false (Ok sel) impl
-          else if va || negb (existsb (fun b => b) fl) then fin_check same ur true false (Err wrong_key) impl
-          else fin_check same ur true false (Ok sel) impl || fin_check same ur true false (Err wrong_key) impl
+          let all := forallb (fun b => b) fl in
+          match m_jwe_post sel with
+          | Err e =>
+              fin_check same ur true false (Err e) impl
+              || (if ur then match impl with Err e' => post_allowed true false e' | Ok _ => false end
+                  else negb all && fin_check same ur true false (Err wrong_key) impl)
+          | Ok _ =>
+              if ur || all then fin_check same ur true false (Ok sel) impl
+              else if va || negb (existsb (fun b => b) fl) then fin_check same ur true false (Err wrong_key) impl
+              else fin_check same ur true false (Ok sel) impl || fin_check same ur true false (Err wrong_key) impl
+          end
       end
   | CExport ks e =>
       list_eqb2 (fun (a : jwk_entry) (b : option string * option str * N) =>
@@ -220,7 +234,7 @@ Definition c14_show (c : c14case) : c14out :=
             | Ok l => Ok (map (fun a : key * guest => (k_id (fst a), k_kid (fst a), None, snd a)) l)
             | Err x => Err x end)
   | CJwe t ur va m src sk rs _ =>
-      OSel (match m_jwe t ur m src sk rs with
+      OSel (match (do sel <- m_jwe t ur m src sk rs; do _ <- m_jwe_post sel; Ok sel) with
             | Ok l => Ok (map (fun a : key * option key * guest =>
                                  let '(k, s, g1) := a in (k_id k, k_kid k, option_map k_id s, g1)) l)
             | Err x => Err x end)
